@@ -194,9 +194,11 @@ def run_pool(worker, cfgs, report, procs=None, chunksize=1, progress_every=0):
         chunks = [cfgs[i:i + max(1, chunksize)] for i in range(0, len(cfgs), max(1, chunksize))]
         it = pool.imap_unordered(_ChunkRunner(worker), chunks)
         pending = []
+        stall = config_budget_s() + 60          # a worker that ignores its own budget (stuck inside a solver call) must not hold the run hostage
+        last = time.time()
         while True:
             if pending:
-                r = pending.pop(); 
+                r = pending.pop(); last = time.time()
                 report.add(r); n += 1
                 if progress_every and n % progress_every == 0:
                     print(f'  .. {n}/{len(cfgs)} configurations, {time.time() - report.t0:.0f}s', flush=True)
@@ -204,7 +206,9 @@ def run_pool(worker, cfgs, report, procs=None, chunksize=1, progress_every=0):
             left = budget - (time.time() - report.t0)
             try:
                 if left <= 0: raise mp.TimeoutError()
-                pending = list(it.next(timeout=max(1.0, left)))
+                wait = min(left, stall - (time.time() - last))
+                if wait <= 0: raise mp.TimeoutError()
+                pending = list(it.next(timeout=max(1.0, wait)))
                 continue
             except StopIteration:
                 break
@@ -212,7 +216,7 @@ def run_pool(worker, cfgs, report, procs=None, chunksize=1, progress_every=0):
                 # the whole check used up its wall-clock budget: what was not explored is reported as such (and makes the run inconclusive when it
                 # is more than a sliver of the configuration set), never as a pass
                 report.unexplored_global += len(cfgs) - n
-                print(f'  .. wall-clock budget of {budget} s used up after {n}/{len(cfgs)} configurations: the rest is unexplored', flush=True)
+                print(f'  .. time budget used up (check budget {budget} s, no result for {stall} s) after {n}/{len(cfgs)} configurations: the rest is unexplored', flush=True)
                 pool.terminate()
                 break
 
